@@ -396,6 +396,8 @@ SPECS += [
          cmpops={("DT", "<", "DT"): "p_lt"}),
 ]
 
+from .srcspecs_met import SPECS_MET, HEADER_MET      # third extension: calgebra/metrics.py
+SPECS, HEADER = SPECS + SPECS_MET, HEADER + HEADER_MET
 
 def regenerate(repo: Path, coq_dir: Path):
     """Rewrite Gen/Source.v if its content changed.  Returns ({name: error}, text)."""
